@@ -103,6 +103,28 @@ CLAIMED = {
             "DESIGN.md section 4, C20"),
 }
 
+# layers added by the later seeded-defect rounds (appended to the level text)
+ADDENDA = {
+    "C01": "Added later: the addressing configuration as a cluster (18 modulo values x 128 steps x 16 mode combinations x 6 positions), every opcode from 52 repeat/block-repeat states, and tie states (accumulators equal to the memory word an address register points at / to each other).",
+    "C02": "Added later: the interpreter's own 65536-entry dispatch table must hold the decoder's row for every word; the assembler's word for the printed text may differ from the original only in bits the form declares unused; the generator's own expansion kind; second-word unused bits; loop programs stepped cycle by cycle.",
+    "C03": "Added later: the 16-bit movr forms are checked for their overflow flags (their value and carry are a documented quirk compared by C01).",
+    "C04": "Added later: product-sum / dual-multiplier forms, normalisation, and the product named as a 16-bit Register operand (movs p, exp p, mpy y0,p) under every product-shift mode.",
+    "C06": "Added later: paused timers, long-horizon family (x40), conditional self-branches, full audio queues.",
+    "C07": "Added later: whole-word status writes, Run(3), a one-shot timer source, vector registers reprogrammed at run time (second handler address, context flag); thorough = full alphabet to depth 5 on six IRQ triples plus the core alphabet to depth 6.",
+    "C08": "Added later: two simultaneous requests, a handler that changes the flags, conditional returns, clobbered product.",
+    "C09": "Added later: counts from every Register operand, frames stored/restored through every pointer, loops abandoned by icr/stt2 writes, icr writes (loop bit clear) as loop bodies.",
+    "C10": "Added later: generic layers over every opcode that names an address register (steps as configured, with modulo on at both buffer ends, with end-pointer mode; bit-reversed access address), two-instruction sequences, configuration instructions followed by a step.",
+    "C11": "Added later: self-modifying stores seen by the next fetch, raw pointer stability across Reset, flat accesses with the other bank selected.",
+    "C12": "Added later: field-value sweeps, DMA start through configured AHBM channels, mailbox REPLY registers read back.",
+    "C13": "Added later: larger size/step products, shared AHBM masks, skewed burst starts.",
+    "C15": "Added later: two timers on one CoreTiming, histories replayed on fresh objects, both timers through their MMIO registers inside a Teakra.",
+    "C16": "Added later: the port behind CoreTiming, exploration without a listener, skips over 9-40 periods where the horizon is unbounded.",
+    "C17": "Added later: host-supplied memory, every documented RW field of every peripheral / DMA channel / vector written before Reset, register words of fresh instances compared.",
+    "C18": "Added later: shift-amount boundaries x every opcode, reserved bits of the ar/arp words x every opcode, audio-port scripts, a state with exactly one open loop.",
+    "C19": "Added later: twelve harnesses (interrupt echo on int0/int1/int2/vectored/vectored-only, send while handling, semaphore unmask after clear).",
+    "C20": "Added later: offset/step meanings of the ar/arp words through every addressed opcode, set/rst/chng and load instructions on the words.",
+}
+
 PENDING_REASON = "check not built yet in this session (engine under construction); see DESIGN.md section 4 for the planned exhaustive exploration"
 
 
@@ -119,6 +141,9 @@ def main():
         if pid not in CLAIMED:
             continue
         eng, tech, text, note, ref = CLAIMED[pid]
+        if pid in ADDENDA:
+            text = text + " " + ADDENDA[pid]
+        note = note + " Peripheral state is read by member name where the pinned layout is present and through the public interface otherwise (engines/common/adapters.h)." if eng in ("sys", "periph", "sched", "safety") else note
         checks.append({
             "property_id": pid,
             "quick_cmd": "./check %s quick" % pid,
